@@ -43,7 +43,9 @@ def oracle_fold(text, k, fb, valid):
 
     def chk(out):
         if not valid:
-            if fb is None and k != 1:
+            # k < 1 or k > len(text) raises ValueError: whatever the boundaries given (fix 3836b17: it was not checked when
+            # k = 1 or when the caller gave the boundaries)
+            if not 1 <= k <= n:
                 return None if out == ('raise', 'ValueError') else 'k=%d n=%d must raise ValueError, got %r' % (k, n, out)
             return None
         if out[0] != 'ok':
@@ -122,7 +124,7 @@ def main():
             cases.append(dict(
                 op=702, arg=[text, k, []], site='folding.fold', desc={'n': n, 'k': k, 'fb': None},
                 impl=(lambda text=text, k=k: impl_fold(text, k, None)),
-                dec=dec_folds, oracle=oracle_fold(text, k, None, valid or k == 1),
+                dec=dec_folds, oracle=oracle_fold(text, k, None, valid),
                 nontrivial=lambda m: m[0] == 'raise' or len(m[1][0]) > 1))
             cases.append(dict(
                 op=704, arg=[text, k, []], site='folding.fold+unfold', desc={'n': n, 'k': k, 'fb': None, 'roundtrip': True},
@@ -174,7 +176,8 @@ def main():
         cases.append(dict(
             op=702, arg=[text, k, [fb]], site='folding.fold', desc={'n': n, 'k': k, 'fb': fb, 'malformed': True},
             impl=(lambda text=text, k=k, fb=fb: impl_fold(text, k, fb)),
-            dec=dec_folds, nontrivial=lambda m: True))
+            dec=dec_folds, oracle=oracle_fold(text, k, fb, False),      # judged only on "an invalid fold count raises ValueError"
+            nontrivial=lambda m: True))
         ck.count('malformed')
     # 4. the clients' fold -> per-fold transformation -> unfold composition (puddle.segment):
     #    distinct lines, fold counts up to 14, the output must be the input in its original order
